@@ -81,12 +81,12 @@ func init() {
 // spec registry
 
 type propSpec struct {
-	ID    string                        // e.g. "C06.text"
-	Rule  string                        // generation + non-trivial rule (evidence)
-	Gen   func(t *rapid.T) any          // draws a case (pointer to a JSON-able struct)
-	New   func() any                    // empty case for replay decoding
-	Check func(c any, r *Rec) error     // oracle; nil = property held on this case
-	Journ bool                          // write-ahead journal (process-killing failures)
+	ID    string                    // e.g. "C06.text"
+	Rule  string                    // generation + non-trivial rule (evidence)
+	Gen   func(t *rapid.T) any      // draws a case (pointer to a JSON-able struct)
+	New   func() any                // empty case for replay decoding
+	Check func(c any, r *Rec) error // oracle; nil = property held on this case
+	Journ bool                      // write-ahead journal (process-killing failures)
 }
 
 func (s *propSpec) Property() string {
